@@ -95,16 +95,19 @@ def build_c06(rng, g, a, b):
     gap = float(rng.randrange(1, 4))
     dx, dy = {'left': (x0 - u1 - gap, 0.0), 'right': (x1 - u0 + gap, 0.0), 'above': (0.0, y1 - v0 + gap),
               'below': (0.0, y0 - v1 - gap)}[side]
-    tx, ty = {'left': (x0 - u1, 0.0), 'right': (x1 - u0, 0.0), 'above': (0.0, y1 - v0), 'below': (0.0, y0 - v1)}[side]
+    touch = {'left': (x0 - u1, 0.0), 'right': (x1 - u0, 0.0), 'above': (0.0, y1 - v0), 'below': (0.0, y0 - v1)}
     movable = all(float(v) == int(v) and abs(v) < 2 ** 40 for v in (x0, y0, x1, y1, u0, v0, u1, v1)) and fmt.polys_of(a) and fmt.polys_of(b)
+    bts = {}
     if movable:
         ar = rewrite_operand(rng, a)
         bd = rewrite_operand(rng, map_operand(b, lambda x, y: (x + dx, y + dy)))
-        bt = map_operand(b, lambda x, y: (x + tx, y + ty))
+        for sd, (tx, ty) in touch.items():
+            bts[sd] = map_operand(b, lambda x, y, tx=tx, ty=ty: (x + tx, y + ty))
         for op in OPS:
             cs['dj' + op] = g.add('dj' + op, 64, op, ar, bd)
             cs['dk' + op] = g.add('dk' + op, 64, op, bd, ar)
-            cs['tc' + op] = g.add('tc' + op, 64, op, a, bt)
+            for sd in bts:
+                cs['tc' + sd + op] = g.add('tc' + sd + op, 64, op, a, bts[sd])
 
     def items(res, exact):
         its, direct = [], []
@@ -149,12 +152,13 @@ def build_c06(rng, g, a, b):
                 want = {'I': [], 'U': pbd + par, 'X': pbd + par, 'D': pbd}[op]
                 if flat(res[cs['dk' + op].cid][1]) != flat(want):
                     direct.append('%s(B, A) with B\'s box strictly %s of A\'s is not the obvious combination of the inputs' % (op, side))
-                # touching boxes: the region law (goes through the sweep)
-                rt = res[cs['tc' + op].cid][1]
-                ext = exact.get(cs['tc' + op].cid)
-                its.append(relcheck.Item('%s_t%s' % (g.gid, op), [aa, ('E', fmt.rings_of_operand(bt)), ('Y', rt)],
-                                         Eq(In(2), Op(op, In(0), In(1))), 64, inp + fmt.rings_of_operand(bt), not ext,
-                                         'touching bounding boxes (%s), %s' % (side, op), [cs['tc' + op]]))
+                # touching boxes, on each of the four sides: the region law (goes through the sweep)
+                for sd, bt in bts.items():
+                    rt = res[cs['tc' + sd + op].cid][1]
+                    ext = exact.get(cs['tc' + sd + op].cid)
+                    its.append(relcheck.Item('%s_t%s%s' % (g.gid, sd, op), [aa, ('E', fmt.rings_of_operand(bt)), ('Y', rt)],
+                                             Eq(In(2), Op(op, In(0), In(1))), 64, inp + fmt.rings_of_operand(bt), not ext,
+                                             'touching bounding boxes (%s), %s' % (sd, op), [cs['tc' + sd + op]]))
         return its, direct
     g.items = items
 
